@@ -2,15 +2,16 @@
 # usage: try_mutant.sh <seeded-dir> <check-id> [more check ids...]
 # applies /verif/seeded/<dir>/patch.diff to /repo, runs the quick tier of the named checks, undoes the patch.
 # The undo runs from a trap, so that an interrupted run (closed pipe, Ctrl-C) cannot leave the patch in /repo.
-D=/verif/seeded/$1; shift
-cd /repo || exit 2
+V=${VERIF_DIR:-/verif}; R=${VERIF_REPO:-/repo}
+D=$V/seeded/$1; shift
+cd $R || exit 2
 [ -z "$(git status --porcelain)" ] || { echo "/repo not clean"; exit 2; }
-trap 'git -C /repo checkout -- . ; [ -z "$(git -C /repo status --porcelain)" ] || echo "WARNING: /repo not clean after undo" >&2' EXIT
+trap 'git -C $R checkout -- . ; [ -z "$(git -C $R status --porcelain)" ] || echo "WARNING: $R not clean after undo" >&2' EXIT
 trap 'exit 130' INT TERM PIPE HUP
 git apply "$D/patch.diff" || { echo "APPLY FAILED"; exit 2; }
 for id in "$@"; do
   s=$(date +%s)
-  out=$(/verif/bin/check $id --tier ${TIER:-quick} 2>&1); rc=$?
+  out=$($V/bin/check $id --tier ${TIER:-quick} 2>&1); rc=$?
   e=$(date +%s)
   echo "$id rc=$rc $((e-s))s | $(echo "$out" | grep -c '^VIOLATION') VIOLATION lines | $(echo "$out" | tail -1)"
   echo "$out" | grep "violation class\|^VIOLATION\|HARNESS" | head -6
